@@ -1160,3 +1160,76 @@ Qed.
 Lemma tr_computed_none r k f c :
   tr_read (TrComputed r k f) None = Err EType /\ tr_chunks (TrComputed r k f) c None = Err EType.
 Proof. split; reflexivity. Qed.
+
+(* ================= columns=None: all columns, in table order ================= *)
+(* readers without a computed column (those raise on None, see tr_computed_none) *)
+Inductive tr_plain : tr_reader -> Prop :=
+| pl_frame t : tr_plain (TrFrame t)
+| pl_csv t : tr_plain (TrCsv t)
+| pl_parquet t bl bl0 : tr_plain (TrParquet t bl bl0)
+| pl_mapped r m : tr_plain r -> tr_plain (TrMapped r m)
+| pl_joined rs : Forall tr_plain rs -> tr_plain (TrJoined rs).
+
+Definition tr_stage_none (c : nat) (r : tr_reader) : Prop :=
+  tr_read r None = Ok (ch_whole (tr_names r) (tr_drows r))
+  /\ tr_stream r c None = tr_sform c (tr_names r) (tr_drows r) (tr_eb r).
+
+Theorem tr_stage_none_all c : 0 < c -> forall r, tr_wf c r -> tr_plain r -> tr_stage_none c r.
+Proof.
+  intros Hc r. induction r as [t|t|t bl bl0|r m IH|rs IH|r k f IH] using tr_reader_ind'; intros Hwf Hpl.
+  - split; [reflexivity|]. cbn [tr_stream tr_names tr_drows tr_eb tr_finish].
+    assert (E : Nat.eqb c 0 = false) by (apply Nat.eqb_neq; lia). rewrite E, tr_sform_false. reflexivity.
+  - split; [reflexivity|]. cbn [tr_stream tr_names tr_drows tr_eb].
+    assert (E : Nat.eqb c 0 = false) by (apply Nat.eqb_neq; lia). rewrite E, tr_csv_frames_sform. reflexivity.
+  - inversion Hwf as [| |t' ? ? Ht Hb| | |]; subst.
+    split; [reflexivity|]. cbn [tr_stream tr_names tr_drows tr_eb].
+    assert (E : Nat.eqb c 0 = false) by (apply Nat.eqb_neq; lia). rewrite E.
+    rewrite tr_pq_frames_ok by assumption. rewrite tr_sform_false. reflexivity.
+  - inversion Hwf as [| | |r' m' Hr Hndm| |]; subst. inversion Hpl as [| | |r' m' Hp|]; subst.
+    destruct (IH Hr Hp) as [H1 H2]. split.
+    + cbn [tr_read tr_names tr_drows]. rewrite H1. reflexivity.
+    + cbn [tr_stream tr_names tr_drows tr_eb]. rewrite H2. cbn [snd]. rewrite tr_rename_sform. reflexivity.
+  - inversion Hwf as [| | | |rs' Hne Hall Hn Hndn|]; subst. inversion Hpl as [| | | |rs' Hps]; subst.
+    destruct rs as [|r0 rs']; [congruence|].
+    rewrite Forall_forall in IH, Hall, Hps.
+    pose (mem := fun r : tr_reader => (tr_names r, tr_drows r, tr_eb r) : tr_mem).
+    assert (Hm : forall r, In r (r0 :: rs') ->
+              tr_read r None = Ok (ch_whole (tr_mN (mem r)) (tr_mR (mem r)))
+              /\ tr_stream r c None = tr_sform c (tr_mN (mem r)) (tr_mR (mem r)) (tr_mb (mem r))
+              /\ length (tr_mR (mem r)) = tr_nrows (TrJoined (r0 :: rs'))).
+    { intros r Hr. destruct (IH r Hr (Hall r Hr) (Hps r Hr)) as [H1 H2].
+      destruct (tr_den_wf c r (Hall r Hr)) as [_ H3]. rewrite <- (Hn r Hr). auto. }
+    assert (Hlens : forall p, In p (map mem rs') -> length (tr_mR p) = length (tr_mR (mem r0))).
+    { intros p Hp. apply in_map_iff in Hp. destruct Hp as [r [<- Hr]].
+      destruct (Hm r (or_intror Hr)) as [_ [_ H3]]. destruct (Hm r0 (or_introl eq_refl)) as [_ [_ H3']].
+      rewrite H3, H3'. reflexivity. }
+    assert (EN : tr_names (TrJoined (r0 :: rs')) = tr_mN (mem r0) ++ flat_map tr_mN (map mem rs')).
+    { cbn [tr_names flat_map]. rewrite tr_flat_map_map. reflexivity. }
+    assert (ER : tr_drows (TrJoined (r0 :: rs')) = fold_left tr_hzip (map tr_mR (map mem rs')) (tr_mR (mem r0))).
+    { cbn [tr_drows map tr_hzip_all]. rewrite map_map. reflexivity. }
+    unfold tr_stage_none. rewrite EN, ER. split.
+    + cbn [tr_read].
+      rewrite (tr_seq_map_ok _ (fun r' => ch_whole (tr_mN (mem r')) (tr_mR (mem r')))).
+      2:{ intros r Hr. cbn [tr_subset]. apply (Hm r Hr). }
+      cbn [map]. rewrite <- (map_map mem (fun p => ch_whole (tr_mN p) (tr_mR p))).
+      rewrite tr_hjoin_fold by exact Hlens. reflexivity.
+    + cbn [tr_stream].
+      rewrite (map_ext_in _ (fun r' => tr_sform c (tr_mN (mem r')) (tr_mR (mem r')) (tr_mb (mem r')))).
+      2:{ intros r Hr. cbn [tr_subset]. apply (Hm r Hr). }
+      cbn [map]. rewrite <- (map_map mem (fun p => tr_sform c (tr_mN p) (tr_mR p) (tr_mb p))).
+      rewrite tr_join2_fold by exact Hlens. cbn [tr_finish tr_eb].
+      rewrite (map_map mem tr_mb). reflexivity.
+  - inversion Hpl.
+Qed.
+
+Theorem tr_reader_none c r : 0 < c -> tr_wf c r -> tr_plain r ->
+  exists chs, tr_chunks r c None = Ok chs
+    /\ tr_read r None = Ok (ch_whole (tr_names r) (tr_drows r))
+    /\ tr_chunked c (tr_names r) (tr_drows r) chs.
+Proof.
+  intros Hc Hwf Hpl. destruct (tr_stage_none_all c Hc r Hwf Hpl) as [H1 H2].
+  exists (fst (tr_sform c (tr_names r) (tr_drows r) (tr_eb r))). split; [|split].
+  - unfold tr_chunks. rewrite H2. reflexivity.
+  - exact H1.
+  - apply tr_sform_chunked. exact Hc.
+Qed.
